@@ -260,6 +260,27 @@ fn pool(pid: &str, seed: u64, rep: &mut Report) -> Vec<Call> {
         ("B01:e1".into(), format!("{}\n{}", b[0].0, b[1].0), "e1".into(), "none".into()),
         ("B0A0:e1".into(), format!("{}\n{}", b[0].0, a[0].0), "e1".into(), "none".into()),
       ];
+      // batches that must be refused — undecodable lines in several shapes; what matters is that
+      // they leave nothing behind for the next call on the thread
+      let bad: Vec<(String, String)> = vec![
+        ("crlf".into(), format!("{}\r\n{}", a[0].0, a[1].0)),
+        ("stray-char".into(), format!("{}\n{}!", a[0].0, a[1].0)),
+        ("broken-padding".into(), format!("{}\n{}=", a[0].0, a[1].0.trim_end_matches('='))),
+        ("garbage-first".into(), format!("%%%%\n{}\n{}", a[0].0, a[1].0)),
+        ("half-a-share".into(), a[0].0[..a[0].0.len() / 2].to_string()),
+        ("empty".into(), String::new()),
+      ];
+      for (name, list) in bad {
+        let akey = a[0].1.clone();
+        calls.push((format!("group-bad:{name}"), "", Box::new(move || {
+          match guard(|| star_wasm::group_shares(&list, "e1")) {
+            // (a lenient reader may accept some of these shapes — then it must return the clients' key)
+            Guard::Done(Some(k)) => if k == akey { format!("some:{k}") } else { format!("WRONG:{k}") },
+            Guard::Done(None) => "none".into(),
+            Guard::Panic(_) => "panic".into(),
+          }
+        })));
+      }
       for (name, list, epoch, want) in lists {
         // want: the key every contributing client holds / "none" / "!" (anything but the clients' key)
         let akey = a[0].1.clone();
